@@ -188,8 +188,12 @@ def gen_c15_spec(rng: random.Random, minutes_max: int) -> Dict[str, Any]:
         spec["kick_fail"] = sorted(rng.sample(range(nk), rng.randint(1, 4)))
     if rng.random() < 0.25:
         spec["host_tz"] = rng.choice(S.HOST_ZONES + ["Asia/Kathmandu", "Australia/Lord_Howe"])
-    if rng.random() < 0.2:
+    r = rng.random()
+    if r < 0.2:
         spec["via_api"] = True
+    elif r < 0.35:
+        spec["via_cli"] = True
+        spec["skip_first_run"] = rng.random() < 0.5
     return spec
 
 
@@ -261,6 +265,13 @@ def run_c15(spec: Dict[str, Any]) -> "tuple[Rec, Dict[str, Any]]":
             from taskiq.api import run_scheduler_task  # the programmatic entry point
 
             t = asyncio.ensure_future(run_scheduler_task(scheduler, run_startup=False))
+        elif spec.get("via_cli"):
+            # what `taskiq scheduler ...` runs: source start-up, optionally --skip-first-run, then the loop
+            from taskiq.cli.scheduler.args import SchedulerArgs
+
+            t = asyncio.ensure_future(run_mod.run_scheduler(SchedulerArgs(
+                scheduler=scheduler, modules=[], configure_logging=False, log_level="WARNING",
+                skip_first_run=bool(spec.get("skip_first_run")))))
         else:
             t = asyncio.ensure_future(run_mod.run_scheduler_loop(scheduler))
         done, _ = await asyncio.wait({t}, timeout=spec["minutes"] * 60 + 0.75)
@@ -294,6 +305,13 @@ def oracle_c15(rec: Rec, info: Dict[str, Any], spec: Dict[str, Any]) -> "tuple[L
     # ---- (1) poll instants per source
     expected_polls = [start]
     b = start - start % M + M
+    if spec.get("skip_first_run"):
+        # --skip-first-run: nothing is listed or sent before the first minute boundary after the start
+        expected_polls = []
+        early = [e for e in ev if e["k"] in ("poll", "kick") and e["us"] < b - 1000]
+        cnt["skip_first_run_checked"] += 1
+        if early:
+            v.append(Violation("first-run-not-skipped", f"--skip-first-run: {early[0]['k']} at +{(early[0]['us'] - start) / 1e6}s, before the first minute boundary at +{(b - start) / 1e6}s"))
     while b <= end_us:
         expected_polls.append(b)
         b += M
@@ -485,11 +503,15 @@ class C15(Check):
             "random sends; sources drop a one-shot in post_send. Oracle: every source polled at start and at every "
             "minute boundary (0..0.5 s) regardless of failures; per cron schedule and polled minute exactly one send "
             "iff the independent matcher says due (send attributed by the source's pre_send instant); per one-shot "
-            "exactly one kick, not before T, <=1 s after max(T, first listing); loop never stops. Non-trivial: >=1 "
+            "exactly one kick, not before T, <=1 s after max(T, first listing); loop never stops; 15 % of the sources also "
+            "list a schedule whose expression is not a cron expression (never sent, nothing else disturbed); the loop is "
+            "entered directly, through taskiq.api.run_scheduler_task or through the CLI's run_scheduler (with and without "
+            "--skip-first-run: then nothing is listed or sent before the first boundary). Non-trivial: >=1 "
             "due cron minute or one-shot judged; distinct = distinct event sequences (kind, schedule, minute).")
     floors = {"counters.polls": 3000, "counters.cron_minutes_checked": 3000, "counters.cron_due_minutes": 500,
               "counters.oneshots_checked": 150, "events.poll_fail": 30, "events.kick_fail": 20,
-              "counters.runs_longer_than_a_day": 20}
+              "counters.runs_longer_than_a_day": 20, "counters.skip_first_run_checked": 30,
+              "counters.unparsable_cron_evaluations": 100}
     quick_cases = 1280
     thorough_cases = 12000
     thorough_time = 420.0
